@@ -45,8 +45,10 @@ VARIABLE c
 \* ipHeader; the request carries OTHER client-IP headers only (claiming a trusted / untrusted address)
 \* host: the request's own Host lies under a configured cookie domain ("on") or under none of them ("off": the proxy addressed by
 \* IP or an internal name - the case in which a cookie-domain choice has the most freedom)
-Init == \E ep \in Endpoints, cr \in Creds, cf \in Cfgs, S \in HdrSets, mode \in {"off", "on_other_ip"}, iph \in IPHeaders, host \in {"on", "off"}, conn \in {"plain", "tls"}, peer \in {"tcp", "unix"} :
+Init == \E ep \in Endpoints, cr \in Creds, cf \in Cfgs, S \in HdrSets, mode \in {"off", "on_other_ip"}, iph \in IPHeaders, host \in {"on", "off"}, conn \in {"plain", "tls"}, peer \in {"tcp", "unix"}, form \in {"origin", "absolute"} :
           \E hv \in [S -> {"a", "b"}] :
+            \* form = "absolute": the request line carries the absolute form of the target (GET http://host/path HTTP/1.1, legal towards any server)
+            /\ (form = "absolute" => mode = "off" /\ host = "on" /\ conn = "plain" /\ peer = "tcp" /\ iph = "X-Real-IP" /\ cf \in {"plain", "spb"})
             /\ (host = "off" => mode = "off" /\ cf = "plain")
             \* peer = "unix": the request arrives on a unix-socket listener (the peer address is "@", no IP at all)
             /\ (peer = "unix" => mode = "off" /\ cf = "plain" /\ host = "on" /\ conn = "plain" /\ ep \in {"protected", "authonly"} /\ S \subseteq IPHeaders /\ iph = "X-Real-IP")
@@ -55,7 +57,7 @@ Init == \E ep \in Endpoints, cr \in Creds, cf \in Cfgs, S \in HdrSets, mode \in 
             \* (with reverse-proxy off a configured real-client-IP header is just as inert as the default one)
             /\ (mode = "off" /\ iph # "X-Real-IP" => cf = "plain" /\ host = "on" /\ conn = "plain" /\ ep \in {"protected", "authonly"} /\ S \subseteq IPHeaders)
             /\ (mode = "on_other_ip" => S \subseteq (IPHeaders \ {iph}) /\ cf = "plain" /\ ep \in {"protected", "authonly"})
-            /\ c = [endpoint |-> ep, cred |-> cr, cfg |-> cf, mode |-> mode, ipHeader |-> iph, host |-> host, conn |-> conn, peer |-> peer,
+            /\ c = [endpoint |-> ep, cred |-> cr, cfg |-> cf, mode |-> mode, ipHeader |-> iph, host |-> host, conn |-> conn, peer |-> peer, form |-> form,
                     hdr |-> [h \in S |-> IF hv[h] = "a" THEN CHOOSE v \in Values(h) : \A w \in Values(h) : v = w \/ v \in {"whitelisted", "https", "skipauth", "trusted", "benign"}
                                          ELSE CHOOSE v \in Values(h) : v \notin {"whitelisted", "https", "skipauth", "trusted", "benign"}]]
 Next == UNCHANGED c
